@@ -3,6 +3,7 @@ import SSVerif.Proofs.JsgfDesugar
 import SSVerif.Proofs.JsgfExpand
 import SSVerif.Proofs.JsgfExpandSound
 import SSVerif.Proofs.JsgfExpandComplete
+import SSVerif.Proofs.JsgfRoundTrip
 /-!
 # C05 — JSGF compilation preserves the language of the grammar
 
@@ -109,6 +110,53 @@ theorem C05_weights_normalised (rl : Rule) :
     normaliseRule (normaliseRule rl) = normaliseRule rl :=
   ⟨normalise_sum, normalise_zero, normalise_idem rl⟩
 
+/-! ### the text front end (`jsgf_scanner.l`, `jsgf_parser.y`) -/
+
+open SSVerif.JsgfText in
+/-- **C05, the front end is total.** `parseText` (scanner model `lexGo` with its four start
+conditions, then the pushdown parser `pstep`) is defined by structural recursion on the byte
+string and on the token list — no fuel, no `partial` — so it answers on every byte string:
+a syntax tree or a rejection.  (The scanner consumes at least one character per action:
+`lexGo` advances through the input one character at a time, a match of length `n` skipping the
+next `n − 1`.) -/
+theorem C05_parse_total (cs : List Char) :
+    (∃ g, parseText cs = some g) ∨ parseText cs = none := by
+  cases h : parseText cs with
+  | none => exact Or.inr rfl
+  | some g => exact Or.inl ⟨g, rfl⟩
+
+open SSVerif.JsgfText in
+/-- **C05, print–parse round trip.** For every text-level syntax tree `g` — any nesting of groups,
+optionals, `*`/`+`, weights (decimal literals) in front of any item, any number of tags, header
+tokens, imports, public flags — whose spellings satisfy the printer's side conditions `g.ok`
+(plain tokens without special characters and not starting with `"`, or `"…"` without inner quote
+and without a backslash before the closing quote; rule names `<…>` without `<`/`>` inside; tags
+`{…}` without `}` inside and without a backslash before the closing brace; at most three header
+tokens; imports only together with a rule): the front end reads the printed text back as exactly
+`g`.  The scanner part (`lex_unlex`) and the parser part (`parseToks_toksG`) are proved separately. -/
+theorem C05_parse_print (g : TGrammar) (h : g.ok = true) : parseText (printG g) = some g :=
+  parse_print g h
+
+open SSVerif.JsgfText in
+/-- **C05, from text to language.** For every byte string the front end accepts, with the surface
+grammar `resolve` builds from the syntax tree (names qualified as `jsgf_fullname` /
+`jsgf_fullname_from_rule` do, a repeated rule name keeping its first definition) and every rule `r`:
+the compiler model builds (`buildRaw`, i.e. the expansion is not refused and no null transition
+would get a probability above one) only automata that accept exactly the JSGF language of `r`. -/
+theorem C05_text_compile_correct (cs : List Char) (tg : TGrammar) (_h : parseText cs = some tg) (r : Nat)
+    (st : XSt) (hb : buildRaw (desugar (resolve tg).1) (.user r) = some st) (ws : List Nat) :
+    Accepts st.toNfa ws ↔ Lang (resolve tg).1 r ws := by
+  unfold buildRaw at hb
+  cases he : expandTop (desugar (resolve tg).1) (.user r) with
+  | none => simp [he] at hb
+  | some st' =>
+    simp only [he, Option.bind_some] at hb
+    split at hb
+    · simp only [Option.some.injEq] at hb
+      subst hb
+      exact (C05_compile_correct (resolve tg).1 r).2 st' he ws
+    · cases hb
+
 /-! ### non-vacuity -/
 
 /-- `public <0> = (x | y)* z+ [w];`  (x=0 y=1 z=2 w=3) -/
@@ -157,5 +205,21 @@ example : ¬ Lang exG3 1 [0] := by
 def exRule : Rule :=
   { name := .user 0, pub := true, alts := [[⟨.tok 0, 2, 0⟩], [⟨.tok 1, 3, 0⟩, ⟨.tok 5, 7, 0⟩], [⟨.tok 2, 0, 0⟩]] }
 example : firstWeights (normaliseRule exRule) = [2/5, 3/5, 0] := by decide +kernel
+
+/-- the front end accepts a text with comments, quoting, tags, weights, a qualified reference,
+and rejects a tag before a `*` -/
+example : (SSVerif.JsgfText.parseText
+    "#JSGF V1.0; grammar g; /* c */ public <a> = /2/ x* {t} | \"q r\" <g.b>+ [ y ] // d\n ; <b> = z;".toList).isSome = true := by
+  decide +kernel
+example : (SSVerif.JsgfText.parseText "#JSGF V1.0; grammar g; public <a> = x {t} * ;".toList).isSome = false := by
+  decide +kernel
+def exTG : SSVerif.JsgfText.TGrammar :=
+  { headerToks := ["V1.0".toList], name := "g".toList, imports := [],
+    rules := [{ name := "<a>".toList, pub := true,
+                body := (SSVerif.JsgfText.TAlts.one (.cons (some ⟨25, 1⟩) ["{t}".toList] (.star (.tok "x".toList))
+                  (.one none [] (.opt (.one (.one none [] (.rule "<b>".toList))))))) }] }
+example : exTG.ok = true := by decide +kernel
+example : String.ofList (SSVerif.JsgfText.printG exTG) = "#JSGF V1.0 ; grammar g ; public <a> = /2.5/ x * {t} [ <b> ] ; " := by
+  decide +kernel
 
 end SSVerif.Jsgf
